@@ -88,6 +88,9 @@ type c07lErrRec struct {
 	Message string `json:"message"`
 	TextOK  bool   `json:"text_ok"`
 	Detail  string `json:"detail"`
+	LocOK   bool   `json:"loc_ok"` // every link's Location() and rendered line:col is the position of its offset, inside the text
+	LocInfo string `json:"loc_info"`
+	LocWide bool   `json:"loc_wide"`
 	Count   int    `json:"count"`
 	Run     int    `json:"run"`
 }
@@ -122,6 +125,8 @@ func c07lErrOf(err error, src string, run int, content map[string]string) c07lEr
 	switch {
 	case errors.As(err, &de):
 		e.Kind = "syntax"
+		k := c07ErrLocations(de)
+		e.LocOK, e.LocInfo, e.LocWide = k.ok, k.info, k.wide
 		// the file the error speaks about: the first link that carries a path
 		for x := error(de); x != nil; {
 			d, ok := x.(directives.Error)
@@ -520,7 +525,9 @@ func c07lPos(r *RNG) float64 {
 }
 
 func c07lBreak(r *RNG, text string, late bool) string {
-	garbage := Pick(r, []string{"2020-01-01 opne A:B\n", "2020-01-01 open\n", "2020-01-01 \"x\nA B 1 CHF\n", "include x\n", "2020-1-1 open A\n", "@performance(\n2020-01-01 open A\n", "2020-01-01 price CHF x USD\n", "?\n", "2020-01-01 balance A 1\n"})
+	garbage := Pick(r, []string{"2020-01-01 opne A:B\n", "2020-01-01 open\n", "2020-01-01 \"x\nA B 1 CHF\n", "include x\n", "2020-1-1 open A\n", "@performance(\n2020-01-01 open A\n", "2020-01-01 price CHF x USD\n", "?\n", "2020-01-01 balance A 1\n",
+		// the same with non-ASCII text before the position of the error on its line (column != byte distance)
+		"2020-01-01 open Aktiven:Geb\u00e4ude:Z\u00fcrich!\n", "2020-01-01 \"Caf\u00e9 \U0001f600 e\u0301\" x\nA B 1 CHF\n", "include \"\u6f22\u5b57/\u00fc.knut\" x\n", "2020-01-01 price \u00c9uro 1.5 \u03a9 !\n", "2020-01-01 balance \U0001d49c:\u044f 1\n", "@performance(\u03a9, \u00c9uro\n2020-01-01 open A\n", "2020-01-01 open \u00e9\xff\n"})
 	var cand string
 	if late {
 		cand = text + garbage
@@ -1016,6 +1023,10 @@ func (x *c07run) loaderCheck(cs *c07lCase, res c07lResult, have bool, trouble st
 		case "syntax":
 			if !c.Monitor(stream, idx, "C07_error_renderable(text identity)", in, f != nil && e.TextOK, e.Detail+" | "+clipTo(e.Message, 300)) || f == nil {
 				continue
+			}
+			c.Monitor(stream, idx, "C07_error_renderable(every line:col is the position of the link's offset, inside the text)", in, e.LocOK, e.LocInfo+" | "+clipTo(e.Message, 300))
+			if e.LocWide {
+				c.Tag(stream + "/err/non-ascii-before-position")
 			}
 			n := len(f.Text)
 			x.bt.Add(func(mon string) {
